@@ -56,7 +56,7 @@ def splitLoop (pre : Char) (comment : List Char) :
 /-- `_split_preamble_body(text)` -/
 def splitPreambleBody (pre : Char) (comment : List Char) (text : List Char) :
     Except FErr (List (List Char) × List (List Char)) :=
-  match splitLoop pre comment (splitOn '\n' text) (true, [], []) with
+  match splitLoop pre comment (Text.splitOn '\n' text) (true, [], []) with
   | .error e => .error e
   | .ok (_, p, b) => .ok (p.reverse, b.reverse)
 
@@ -153,16 +153,18 @@ def ofTErr : Text.TErr → FErr
 /-- `s.strip(chars)` -/
 def stripChars (p : Char → Bool) (s : List Char) : List Char := ((s.dropWhile p).reverse.dropWhile p).reverse
 
-/-- `_parse_args(args)` -/
-def parseArgs (args : List Char) : Except FErr (List Int) :=
+/-- `_parse_args(args)`: `args.strip("()").split(",")`, every piece stripped and read as a constant -/
+def parseArgsList : List (List Char) → Except FErr (List Int)
+  | [] => .ok []
+  | w :: ws =>
+    match Text.parseConst (strip w), parseArgsList ws with
+    | some v, .ok vs => .ok (v :: vs)
+    | none, _ => .error .syntax
+    | _, .error e => .error e
+
+def parseArgs (ob cb : Char) (args : List Char) : Except FErr (List Int) :=
   if args.isEmpty then .ok []
-  else
-    (splitOn ',' (stripChars (fun c => c = '(' || c = ')') args)).foldr
-      (fun w acc => match acc with
-        | .error e => .error e
-        | .ok vs => match Text.parseConst (strip w) with
-          | some v => .ok (v :: vs)
-          | none => .error .syntax) (.ok [])
+  else parseArgsList (Text.splitOn ',' (stripChars (fun c => c = ob || c = cb) args))
 
 /-- `_parse_operands(words)`: the operand parser of Model/Text.lean on every word -/
 def parseOperandsF (S : Text.Syms) (ws : List (List Char)) : Except FErr (List Asm.POperand) :=
@@ -187,7 +189,7 @@ def parseBodyLine (S : Text.Syms) (generic : List String) (line : List Char) : E
       | none => .error .syntax
       | some (name, args) =>
         if generic.contains (String.ofList name) then
-          match parseArgs args with
+          match parseArgs S.argOpen ')' args with
           | .error e => .error e
           | .ok as =>
             match parseOperandsF S ws with
@@ -213,7 +215,7 @@ def pyInt (s : List Char) : Option Int :=
 
 /-- `_parse_netqasm_version` -/
 def parseVersion (s : List Char) : Except FErr (Int × Int) :=
-  match splitOn '.' (strip s) with
+  match Text.splitOn '.' (strip s) with
   | [a, b] =>
     match pyInt a, pyInt b with
     | some x, some y => .ok (x, y)
